@@ -165,6 +165,7 @@ type c19Scenario struct {
 	ReqTimeoutMs int64       `json:"req_timeout_ms"`
 	NetDelayUs   []int64     `json:"net_delay_us"`
 	LatencyUs    int64       `json:"latency_us"`
+	Bulk         int         `json:"bulk"` // keys /p/k0000.. loaded directly into the store before anything else
 	Init         []c19Op     `json:"init"`
 	Syncers      []c19Syncer `json:"syncers"`
 	Phases       []c19Phase  `json:"phases"`
@@ -215,7 +216,51 @@ func c19GenOp(rng *sim.Rand, burst int) c19Op {
 	return op
 }
 
+// c19GenBig is the rare scenario class "big prefix": 501-1200 keys under the
+// prefix before the syncer starts, a Range latency, and a steady stream of
+// direct transactions that change a key at the low end AND a key at the high
+// end of the key order in one revision (sometimes a delete-prefix of the first
+// hundred bulk keys plus a put at the high end), while pulls are in flight. A
+// pull that is not ONE consistent read (e.g. pages read at different revisions)
+// then delivers a content no revision ever had. Few, cheap operations otherwise.
+func c19GenBig(rng *sim.Rand) *c19Scenario {
+	sc := &c19Scenario{}
+	sc.Seed = int64(rng.Uint64() >> 1)
+	sc.ReqTimeoutMs = int64(rng.Pick(1700, 7300))
+	sc.Bulk = rng.Pick(501, 501, 600, 999, 1001, 1200)
+	sc.LatencyUs = int64(rng.Pick(211, 3109, 3109))
+	if rng.Bool(0.3) {
+		sc.NetDelayUs = []int64{137}
+	}
+	s := c19Syncer{Mode: rng.PickStr("prefix", "rawprefix"), Target: "/p/", PullMs: int64(rng.Pick(200, 1000)), LagsMs: []int64{0}, StartUs: int64(rng.Pick(0, 1009))}
+	sc.Syncers = append(sc.Syncers, s)
+	ph := c19Phase{}
+	wr := c19Writer{}
+	for i, n := 0, rng.Range(8, 16); i < n; i++ {
+		v := fmt.Sprintf("w%d", i)
+		op := c19Op{GapUs: int64(rng.Pick(1307, 3001, 5003, 9001)), Kind: "txn", Via: "direct",
+			KVs: []c19KV{{Key: "/p/a", Val: &v}, {Key: "/p/zz", Val: &v}}}
+		switch rng.Intn(10) {
+		case 0:
+			op.KVs = []c19KV{{Key: "/p/a", Val: nil}, {Key: "/p/zz", Val: nil}}
+		case 1:
+			op.KVs = []c19KV{{Key: "/p/a", Val: &v}, {Key: "/p/k0000", Val: &v}, {Key: fmt.Sprintf("/p/k%04d", sc.Bulk-1), Val: &v}}
+		}
+		wr.Ops = append(wr.Ops, op)
+		if rng.Bool(0.08) {
+			wr.Ops = append(wr.Ops, c19Op{GapUs: 1307, Kind: "delprefix", Via: "direct", Key: "/p/k00"},
+				c19Op{GapUs: 0, Kind: "put", Via: "direct", Key: "/p/zz", Val: "after-delete"})
+		}
+	}
+	ph.Writers = append(ph.Writers, wr)
+	sc.Phases = append(sc.Phases, ph)
+	return sc
+}
+
 func c19Gen(rng *sim.Rand, tier string) interface{} {
+	if rng.Bool(0.04) {
+		return c19GenBig(rng)
+	}
 	sc := &c19Scenario{}
 	sc.Seed = int64(rng.Uint64() >> 1)
 	sc.ReqTimeoutMs = int64(rng.Pick(330, 1700, 1700, 7300))
@@ -579,7 +624,7 @@ type c19State struct {
 
 // c19Project computes the sequence of contents of the target (one entry per
 // revision in which the projected raw content changed, plus the initial one).
-func c19Project(hist []*zzsimetcd.RevRecord, target string, prefix bool) []c19State {
+func c19Project(hist []*zzsimetcd.RevRecord, target string, prefix bool, fromRev int64) []c19State {
 	sel := func(k string) bool {
 		if prefix {
 			return strings.HasPrefix(k, target)
@@ -588,7 +633,20 @@ func c19Project(hist []*zzsimetcd.RevRecord, target string, prefix bool) []c19St
 	}
 	cur := map[string]*mvccpb.KeyValue{}
 	states := []c19State{{rev: 1, val: c19Finger(cur, false), raw: c19Finger(cur, true)}}
+	// contents before fromRev are not rendered one by one (a bulk-loaded prefix
+	// would cost a fingerprint of >1000 keys per revision): only the last
+	// content at or before fromRev is
+	pendingRev := int64(0)
+	flush := func() {
+		if pendingRev != 0 {
+			states = append(states, c19State{rev: pendingRev, val: c19Finger(cur, false), raw: c19Finger(cur, true)})
+			pendingRev = 0
+		}
+	}
 	for _, rec := range hist {
+		if rec.Rev > fromRev {
+			flush()
+		}
 		changed := false
 		for _, ev := range rec.Events {
 			k := string(ev.Kv.Key)
@@ -603,10 +661,26 @@ func c19Project(hist []*zzsimetcd.RevRecord, target string, prefix bool) []c19St
 			}
 		}
 		if changed {
-			states = append(states, c19State{rev: rec.Rev, val: c19Finger(cur, false), raw: c19Finger(cur, true)})
+			pendingRev = rec.Rev
+			if rec.Rev > fromRev {
+				flush()
+			}
 		}
 	}
+	flush()
 	return states
+}
+
+// c19Short abbreviates a long fingerprint for messages and events.
+func c19Short(x string) string {
+	if len(x) <= 400 {
+		return x
+	}
+	h := uint64(14695981039346656037)
+	for i := 0; i < len(x); i++ {
+		h = (h ^ uint64(x[i])) * 1099511628211
+	}
+	return fmt.Sprintf("%s ...[%d bytes, fnv %016x]... %s", x[:200], len(x), h, x[len(x)-120:])
 }
 
 type c19Snap struct {
@@ -794,6 +868,23 @@ func c19Exec(r *sim.Run, sci interface{}) {
 		r.Eventf("%s %s %s %s=%q %s -> rev %d", who, via, op.Kind, op.Key, op.Val, res, env.store.Rev())
 	}
 
+	if sc.Bulk > 0 {
+		// a big prefix population (more than one page of any paginated read),
+		// loaded in transactions of 100 puts
+		nb := sc.Bulk
+		if nb > 5000 {
+			nb = 5000
+		}
+		for i := 0; i < nb; i += 100 {
+			req := &pb.TxnRequest{}
+			for j := i; j < i+100 && j < nb; j++ {
+				req.Success = append(req.Success, &pb.RequestOp{Request: &pb.RequestOp_RequestPut{RequestPut: &pb.PutRequest{Key: []byte(fmt.Sprintf("/p/k%04d", j)), Value: []byte("x")}}})
+			}
+			env.store.Txn(req)
+		}
+		r.Eventf("bulk: %d keys under /p/k loaded, store rev %d", nb, env.store.Rev())
+		r.Probe("big_prefix_more_than_500_keys")
+	}
 	for _, op := range sc.Init {
 		op.Via = "direct"
 		apply("init", op)
@@ -927,7 +1018,7 @@ func c19Exec(r *sim.Run, sci interface{}) {
 				if s.raw {
 					shown = snap.raw
 				}
-				r.Eventf("sync%d snapshot #%d %s (store rev %d)", s.idx, len(s.snaps), shown, env.store.Rev())
+				r.Eventf("sync%d snapshot #%d %s (store rev %d)", s.idx, len(s.snaps), c19Short(shown), env.store.Rev())
 				lag := time.Duration(0)
 				if !prompt && len(s.cfg.LagsMs) > 0 {
 					lag = time.Duration(s.cfg.LagsMs[k%len(s.cfg.LagsMs)]) * time.Millisecond
@@ -964,7 +1055,7 @@ func c19Exec(r *sim.Run, sci interface{}) {
 			if s.syncer == nil {
 				continue
 			}
-			states := c19Project(hist, s.cfg.Target, s.prefix)
+			states := c19Project(hist, s.cfg.Target, s.prefix, 1<<62)
 			final := states[len(states)-1]
 			lastVal, lastRaw := states[0].val, states[0].raw // implicit initial snapshot: empty
 			if len(s.snaps) > 0 {
@@ -972,7 +1063,7 @@ func c19Exec(r *sim.Run, sci interface{}) {
 			}
 			if lastVal != final.val {
 				return false, fmt.Sprintf("sync%d (%s %q, pull %dms): store content is %s (since rev %d, store rev %d) but the last of %d delivered snapshots is %s",
-					s.idx, s.cfg.Mode, s.cfg.Target, s.cfg.PullMs, final.val, final.rev, env.store.Rev(), len(s.snaps), lastVal)
+					s.idx, s.cfg.Mode, s.cfg.Target, s.cfg.PullMs, c19Short(final.val), final.rev, env.store.Rev(), len(s.snaps), c19Short(lastVal))
 			}
 			if s.raw && len(s.snaps) > 0 && lastRaw != final.raw {
 				r.Probe("raw_metadata_stale_after_same_value_put")
@@ -1179,7 +1270,7 @@ func c19Exec(r *sim.Run, sci interface{}) {
 		if s.syncer == nil {
 			continue
 		}
-		states := c19Project(hist, s.cfg.Target, s.prefix)
+		states := c19Project(hist, s.cfg.Target, s.prefix, s.startRev)
 		pick := func(st c19State) string {
 			if s.raw {
 				return st.raw
@@ -1204,7 +1295,7 @@ func c19Exec(r *sim.Run, sci interface{}) {
 					b.WriteString(" ...")
 					break
 				}
-				fmt.Fprintf(&b, " [%d]rev%d:%s", i, st.rev, pick(st))
+				fmt.Fprintf(&b, " [%d]rev%d:%s", i, st.rev, c19Short(pick(st)))
 			}
 			b.WriteString("\ndelivered:")
 			for i, sn := range s.snaps {
@@ -1216,7 +1307,7 @@ func c19Exec(r *sim.Run, sci interface{}) {
 				if s.raw {
 					x = sn.raw
 				}
-				fmt.Fprintf(&b, " #%d@%v:%s", i+1, sn.at, x)
+				fmt.Fprintf(&b, " #%d@%v:%s", i+1, sn.at, c19Short(x))
 			}
 			return b.String()
 		}
@@ -1230,7 +1321,7 @@ func c19Exec(r *sim.Run, sci interface{}) {
 				// an initial empty snapshot: accepted (the implicit one made explicit)
 				r.Probe("initial_empty_snapshot_delivered")
 			} else if i > 0 && got == prev {
-				r.Violate("C19.duplicate-snapshot", "snapshot #%d equals snapshot #%d: %s\n%s", i+1, i, got, describe())
+				r.Violate("C19.duplicate-snapshot", "snapshot #%d equals snapshot #%d: %s\n%s", i+1, i, c19Short(got), describe())
 				return
 			}
 			prev = got
@@ -1253,17 +1344,17 @@ func c19Exec(r *sim.Run, sci interface{}) {
 				}
 				switch {
 				case older >= 0:
-					r.Violate("C19.order", "snapshot #%d %s is store state [%d], older than the state [%d] an earlier snapshot (or the start) already reflected\n%s", i+1, got, older, p, describe())
+					r.Violate("C19.order", "snapshot #%d %s is store state [%d], older than the state [%d] an earlier snapshot (or the start) already reflected\n%s", i+1, c19Short(got), older, p, describe())
 				case s.raw && valOnly >= 0:
-					r.Violate("C19.raw-metadata-not-a-store-state", "snapshot #%d %s has the keys/values of store state [%d] but KeyValue metadata the store never had\n%s", i+1, got, valOnly, describe())
+					r.Violate("C19.raw-metadata-not-a-store-state", "snapshot #%d %s has the keys/values of store state [%d] but KeyValue metadata the store never had\n%s", i+1, c19Short(got), valOnly, describe())
 				default:
-					r.Violate("C19.phantom-snapshot", "snapshot #%d %s equals no content the store ever had\n%s", i+1, got, describe())
+					r.Violate("C19.phantom-snapshot", "snapshot #%d %s equals no content the store ever had (for a big prefix: e.g. a mix of two revisions)\n%s", i+1, c19Short(got), describe())
 				}
 				return
 			}
 			p = j
 			if fp := c19FPOf(sn.orig); fp != sn.origFP {
-				r.Violate("C19.snapshot-mutated", "snapshot #%d was %s when delivered and is %s now\n%s", i+1, sn.origFP, fp, describe())
+				r.Violate("C19.snapshot-mutated", "snapshot #%d was %s when delivered and is %s now\n%s", i+1, c19Short(sn.origFP), c19Short(fp), describe())
 				return
 			}
 		}
